@@ -130,7 +130,7 @@ def schema_object(d, sub, kwfun=keyword_strategies, max_kw=5):
                 o[k] = draw(st.lists(subo, min_size=(1 if d == 4 else 0), max_size=3))
             else:
                 o[k] = draw(kws[k])
-        if d == 3 and "properties" in o:
+        if d == 3 and isinstance(o.get("properties"), dict):
             for pk, ps in o["properties"].items():
                 if isinstance(ps, dict) and "required" not in ps and draw(st.integers(0, 9)) < 4:
                     ps["required"] = draw(st.booleans())
